@@ -140,7 +140,9 @@ def run(repo, res):
               % ((bad[0][2], bad[0][0], bad[0][3], bad[0][4]) if bad else ('', '', '', '')),
               sample='%d parameter bindings carry their signature position as idx' % nidx)
     asg = repo.method('supp/scope.py', 'SourceScope', 'assigns')
-    ok = 'context_property' in [unparse(d) for d in asg.decorator_list] and 'result.setdefault(attr_val' in unparse(asg)
+    from .. import api_model
+    api_model.apply(res, api_model.assigns_model(repo), {'assigns': 'C06-R4'}, 'supp/scope.py', asg.lineno)
+    ok = 'context_property' in [unparse(d) for d in asg.decorator_list]
     res.check('C06-R4', 'assigns groups by receiver identity behind a memo', ok, 'supp/scope.py', asg.lineno,
               'SourceScope.assigns must group attribute assignments by the evaluated receiver object', nontrivial=False)
     res.note('C06-R2 (every base kind supports the merge protocol _attrs/call) is reported under C08-R3 (it is a crash).')
